@@ -66,6 +66,7 @@ type Sym struct {
 	Alts   []string              // symChoice: the condition of each alternative
 	Env    map[types.Object]*Sym // symFuncLit: the environment the literal was created in
 	Lit    *ast.FuncLit
+	Origin ast.Node // symChoice from a multi-return helper: the call; alternatives of all results of that call are aligned
 }
 
 func symUnknownOf(e ast.Expr) *Sym { return &Sym{K: symUnknown, Expr: e} }
@@ -317,8 +318,9 @@ type symWalker struct {
 	// AssumeFn may replace a field / variable value by a constant (a case split by the rule)
 	AssumeFn func(s *Sym) *Sym
 	// OnSend is called for every channel send statement
-	OnSend func(w *symWalker, st *ast.SendStmt, ch *Sym, val *Sym)
-	broke  bool // an unconditional break was executed in the loop body being unrolled
+	OnSend      func(w *symWalker, st *ast.SendStmt, ch *Sym, val *Sym)
+	feas        map[ast.Node][]bool // per multi-return call: which of its return alternatives are still possible on this path
+	broke       bool                // an unconditional break was executed in the loop body being unrolled
 	globalsSeen map[types.Object]*Sym
 }
 
@@ -438,6 +440,7 @@ func (p *Prog) SymWalk(pk *packages.Package, fd *ast.FuncDecl, proto *symWalker,
 	if proto != nil {
 		w.Inline, w.OnCall, w.OnStore, w.OnReturn, w.OnText, w.Assume = proto.Inline, proto.OnCall, proto.OnStore, proto.OnReturn, proto.OnText, proto.Assume
 		w.AssumeFn, w.OnSend = proto.AssumeFn, proto.OnSend
+		w.feas = copyFeas(proto.feas)
 		w.conds, w.loops, w.depth = append([]symCond{}, proto.conds...), append([]*Sym{}, proto.loops...), proto.depth
 		for k := range proto.stack {
 			w.stack[k] = true
@@ -456,9 +459,110 @@ func (p *Prog) SymWalk(pk *packages.Package, fd *ast.FuncDecl, proto *symWalker,
 	return w
 }
 
+// restrict drops the alternatives of a multi-return choice that the path conditions have excluded.
+func (w *symWalker) restrict(s *Sym) *Sym {
+	if s == nil || s.K != symChoice || s.Origin == nil || w.feas == nil {
+		return s
+	}
+	f, ok := w.feas[s.Origin]
+	if !ok || len(f) != len(s.Parts) {
+		return s
+	}
+	var vals []*Sym
+	var alts []string
+	for i, p := range s.Parts {
+		if f[i] {
+			vals = append(vals, p)
+			alts = append(alts, s.Alts[i])
+		}
+	}
+	switch len(vals) {
+	case 0:
+		return s
+	case 1:
+		return vals[0]
+	}
+	if len(vals) == len(s.Parts) {
+		return s
+	}
+	out := mkChoice(alts, vals)
+	if out.K == symChoice {
+		out.Origin = nil // indices no longer aligned with the call's alternatives
+	}
+	return out
+}
+
+// nilness of one alternative: +1 certainly non-nil, -1 the nil literal, 0 unknown
+func altNilness(s *Sym) int {
+	switch s.K {
+	case symNil:
+		return -1
+	case symStruct, symList, symConcat:
+		return 1
+	case symCall:
+		switch s.Fn {
+		case "errors.New", "fmt.Errorf":
+			return 1
+		}
+	}
+	return 0
+}
+
+func copyFeas(f map[ast.Node][]bool) map[ast.Node][]bool {
+	out := map[ast.Node][]bool{}
+	for k, v := range f {
+		out[k] = append([]bool{}, v...)
+	}
+	return out
+}
+
+// assumeNilTest records, for a condition `choice != nil` / `choice == nil` that is known to hold (holds=true) or known to
+// fail, which alternatives of the choice's call remain possible.
+func (w *symWalker) assumeNilTest(cond *Sym, holds bool) {
+	for cond != nil && cond.K == symNot {
+		cond, holds = cond.X, !holds
+	}
+	if cond == nil || cond.K != symBin || (cond.Op != token.NEQ && cond.Op != token.EQL) {
+		return
+	}
+	var ch *Sym
+	switch {
+	case cond.X.K == symChoice && cond.Y.K == symNil:
+		ch = cond.X
+	case cond.Y.K == symChoice && cond.X.K == symNil:
+		ch = cond.Y
+	default:
+		return
+	}
+	if ch.Origin == nil {
+		return
+	}
+	wantNonNil := (cond.Op == token.NEQ) == holds
+	if w.feas == nil {
+		w.feas = map[ast.Node][]bool{}
+	}
+	f, ok := w.feas[ch.Origin]
+	if !ok || len(f) != len(ch.Parts) {
+		f = make([]bool, len(ch.Parts))
+		for i := range f {
+			f[i] = true
+		}
+	}
+	for i, p := range ch.Parts {
+		n := altNilness(p)
+		if wantNonNil && n == -1 {
+			f[i] = false
+		}
+		if !wantNonNil && n == 1 {
+			f[i] = false
+		}
+	}
+	w.feas[ch.Origin] = f
+}
+
 func (w *symWalker) lookup(o types.Object, e ast.Expr) *Sym {
 	if s, ok := w.env[o]; ok {
-		return s
+		return w.restrict(s)
 	}
 	switch x := o.(type) {
 	case *types.Const:
@@ -611,6 +715,34 @@ func (w *symWalker) eval1(e ast.Expr) *Sym {
 			base := w.eval(x.X)
 			if sel.Kind() != types.FieldVal {
 				return &Sym{K: symField, X: base, Name: x.Sel.Name, Expr: e}
+			}
+			if base.K == symChoice {
+				base = w.restrict(base)
+			}
+			if base.K == symChoice {
+				// the same field of every alternative
+				var vals []*Sym
+				okAll := true
+				for _, alt := range base.Parts {
+					if alt.K == symStruct {
+						if f, ok := alt.FieldDeep(x.Sel.Name); ok {
+							vals = append(vals, f)
+							continue
+						}
+						if len(alt.Order) == 0 {
+							vals = append(vals, &Sym{K: symUnknown, Name: "zero value"})
+							continue
+						}
+					}
+					okAll = false
+				}
+				if okAll && len(vals) == len(base.Parts) {
+					out := mkChoice(base.Alts, vals)
+					if out.K == symChoice {
+						out.Origin = base.Origin
+					}
+					return w.restrict(out)
+				}
 			}
 			if base.K == symStruct {
 				if f, ok := base.Fields[x.Sel.Name]; ok {
@@ -919,6 +1051,9 @@ func (w *symWalker) call(x *ast.CallExpr) *Sym {
 							vals = append(vals, rt.vals[j])
 						}
 						comps[j] = mkChoice(alts, vals)
+						if comps[j].K == symChoice {
+							comps[j].Origin = x
+						}
 					}
 					if n == 1 {
 						result = comps[0]
@@ -1217,11 +1352,16 @@ func (w *symWalker) stmt(st ast.Stmt) (terminates bool) {
 		}
 		assigned := w.assignedIn(x)
 		snap := w.snapshot()
+		feas0 := copyFeas(w.feas)
 		w.conds = append(w.conds, symCond{cond, false})
+		w.assumeNilTest(cond, true)
 		t1 := w.block(x.Body.List)
 		w.conds = w.conds[:len(w.conds)-1]
 		env1 := w.env
+		feas1 := w.feas
 		w.env = snap
+		w.feas = copyFeas(feas0)
+		w.assumeNilTest(cond, false)
 		t2 := false
 		if x.Else != nil {
 			w.conds = append(w.conds, symCond{cond, true})
@@ -1229,16 +1369,34 @@ func (w *symWalker) stmt(st ast.Stmt) (terminates bool) {
 			w.conds = w.conds[:len(w.conds)-1]
 		}
 		env2 := w.env
+		feas2 := w.feas
 		switch {
 		case t1 && t2:
 			return true
 		case t1:
 			w.env = env2
+			w.feas = feas2
 			w.conds = append(w.conds, symCond{cond, true}) // popped at the end of the enclosing block
 		case t2:
 			w.env = env1
+			w.feas = feas1
 			w.conds = append(w.conds, symCond{cond, false})
 		default:
+			// both branches continue: an alternative is possible when it is possible in either
+			merged := copyFeas(feas0)
+			for k, f1 := range feas1 {
+				f2, ok := feas2[k]
+				if !ok || len(f2) != len(f1) {
+					delete(merged, k)
+					continue
+				}
+				m := make([]bool, len(f1))
+				for i := range f1 {
+					m[i] = f1[i] || f2[i]
+				}
+				merged[k] = m
+			}
+			w.feas = merged
 			// merge: objects assigned in either branch keep their value only when both agree
 			w.env = env2
 			for o := range assigned {
